@@ -1368,6 +1368,14 @@ struct Opts {
     real_proofs: BTreeSet<usize>,
 }
 
+/// Cases reported so far (all threads): once a violation is established the rest of the run is cut short.
+static MISMATCHES: std::sync::atomic::AtomicUsize = std::sync::atomic::AtomicUsize::new(0);
+const MISMATCH_CAP: usize = 24;
+/// Requests with Orchard/Ironwood actions that the specification refuses are run through the full
+/// build (a refusal costs nothing); if the code does *not* refuse, real proofs get made - a few of
+/// those establish the violation, after that such requests are left to the PCZT path.
+static UNEXPECTED_PROOFS: std::sync::atomic::AtomicUsize = std::sync::atomic::AtomicUsize::new(0);
+
 fn outcome_of<T, FE: std::fmt::Debug>(r: Result<Result<T, BErr<FE>>, String>) -> (J, Option<T>) {
     match r {
         Err(p) => (json!({"k": "panic", "amt": 0, "msg": p}), None),
@@ -1451,7 +1459,8 @@ where
     let shielded_actions = sh["ao"].as_u64().unwrap() + sh["ai"].as_u64().unwrap();
     let refusal_expected = !justified(x, "build").is_empty();
     let real = opts.real_proofs.contains(&idx);
-    if shielded_actions == 0 || refusal_expected || real {
+    let proofs_budget = UNEXPECTED_PROOFS.load(std::sync::atomic::Ordering::Relaxed) < 3;
+    if shielded_actions == 0 || (refusal_expected && proofs_budget) || real {
         let mut b = new_builder(q, &m);
         match guarded(|| populate::<FR::Error>(&mut b, q, &m)) {
             Ok(Ok(())) => {
@@ -1462,6 +1471,9 @@ where
                 let (o, res) = outcome_of(guarded(|| b.build(&set, &extsks, &saks, brng, &MockSpendProver, &MockOutputProver, rule)));
                 st.inc(&format!("build:{}", o["k"].as_str().unwrap().split(':').next().unwrap()));
                 if let Some(e) = judge_outcome(x, "build", &o) {
+                    if o["k"] == "ok" && shielded_actions > 0 {
+                        UNEXPECTED_PROOFS.fetch_add(1, std::sync::atomic::Ordering::Relaxed);
+                    }
                     errs.push(e);
                 } else if let Some(res) = res {
                     let vk = (shielded_actions > 0).then(|| verifying_key(m.branch));
@@ -1789,8 +1801,13 @@ fn main() {
                         let mut st = Stats::default();
                         let mut bad = vec![];
                         for (idx, case) in cases.iter().enumerate().filter(|(i, _)| i % threads == t) {
+                            if MISMATCHES.load(std::sync::atomic::Ordering::Relaxed) >= MISMATCH_CAP {
+                                st.inc("skipped_after_mismatch_cap");
+                                continue;
+                            }
                             let errs = dispatch(idx, case, opts, &mut st);
                             if !errs.is_empty() {
+                                MISMATCHES.fetch_add(1, std::sync::atomic::Ordering::Relaxed);
                                 st.inc("mismatch");
                                 if bad.len() < 10 {
                                     bad.push(json!({"kind": "case", "idx": idx, "case": case, "errors": errs}));
